@@ -15,6 +15,7 @@ from . import blocks as B
 from . import docrun, docs, driver, pool, report, repo
 
 NAME = "verif_block_0"
+PROBES = []  # filled by main() before any worker is forked (hand-written menu + automatically selected probes)
 
 
 def probes():
@@ -35,6 +36,98 @@ def probes():
         ("tags", [I("PUSH [tag]", "7"), I("PUSH [tag]", "7"), I("PUSH data", "a1"), I("POP"), I("SWAP1")]),
         ("iszero", [I("ISZERO"), I("ISZERO"), I("ISZERO"), I("PUSH [tag]", "2"), I("JUMPI")]),
     ]
+
+
+_EXTRA = []
+
+
+def probes_all():
+    return probes() + list(_EXTRA)
+
+
+def candidate_pool():
+    from . import families
+    pool_ = []
+    pool_ += list(B.tree(B.CORE, 3))[::9]
+    pool_ += list(B.tree(B.MIXED, 3))[::11]
+    pool_ += list(families.rule_family(1))[::60]
+    pool_ += list(families.mem_family(2))[::25]
+    pool_ += list(families.sandwich_family())[::70]
+    P, I = B.P, B.I
+    # repeated expressions that are not shared through DUP, stores of fresh values, consecutive splits
+    pool_ += [[I("DUP2"), I("DUP2"), I("ADD"), I("SWAP2"), I("ADD"), P(0x40), I("MSTORE"), P(0x20), I("MSTORE")],
+              [I("DUP2"), I("DUP2"), I("ADD"), I("SWAP2"), I("MUL"), I("DUP2"), I("MSTORE"), P(0x20), I("MSTORE")],
+              [I("DUP2"), I("DUP2"), I("MUL"), I("SWAP2"), I("MUL"), I("SSTORE")],
+              [I("DUP1"), I("DUP3"), I("XOR"), I("DUP3"), I("SWAP1"), I("XOR"), I("SWAP2"), I("POP"), I("POP")],
+              [I("DUP1"), I("MLOAD"), I("DUP2"), I("MLOAD"), I("ADD"), I("SWAP1"), I("MSTORE")],
+              [I("CALLER"), I("CALLER"), I("EQ"), I("ADDRESS"), I("BALANCE"), I("SELFBALANCE"), I("SUB")],
+              [P(1), P(2), I("LOG0"), I("GAS"), I("GAS"), I("CALLDATACOPY")]]
+    seen = set()
+    out = []
+    for b in pool_:
+        t = tuple(b)
+        if t not in seen:
+            seen.add(t)
+            out.append(b)
+    return out
+
+
+def _cls(v):
+    return "empty" if v in ("[]", "{}", "0", "False", "''", "None", "-1", "True") else "set"
+
+
+def work_footprints(ctx, cands):
+    """Which module globals does each candidate block leave in a non-default shape?  (one child, sequential)"""
+    ident = [("DUP1", None), ("POP", None)]
+    process(ctx, ident)
+    base = snapshot()
+    out = []
+    for blk in cands:
+        try:
+            process(ctx, blk)
+        except (repo.UnitTimeout, MemoryError):
+            raise
+        except Exception:
+            out.append([])
+            continue
+        s = snapshot()
+        feats = sorted({"%s:%s" % (k, _cls(v)) for k, v in s.items() if base.get(k) != v and not k.endswith("_counter")})
+        out.append(feats)
+        process(ctx, ident)
+        base = snapshot()
+    return out
+
+
+def select_probes(cfg, max_extra=14):
+    """Greedy cover: extra probes so that every (global, shape) footprint some candidate leaves is left by a probe."""
+    cands = candidate_pool()
+    hand = [p[1] for p in probes()]
+    res = {}
+
+    def on_r(c, unit, status, value):
+        res["status"], res["value"] = status, value
+
+    pool.run_tasks([(cfg, [hand + cands])], work_footprints, setup=setup, unit_timeout=1200, on_result=on_r)
+    if res.get("status") != "ok":
+        return [], {"error": str(res.get("value"))[-200:]}
+    fp = res["value"]
+    covered = set()
+    for f in fp[:len(hand)]:
+        covered.update(f)
+    universe = set()
+    for f in fp:
+        universe.update(f)
+    extra = []
+    rest = list(range(len(hand), len(fp)))
+    while len(extra) < max_extra:
+        best = max(rest, key=lambda i: len(set(fp[i]) - covered), default=None)
+        if best is None or not (set(fp[best]) - covered):
+            break
+        covered |= set(fp[best])
+        extra.append(("auto%d" % len(extra), cands[best - len(hand)]))
+        rest.remove(best)
+    return extra, {"footprints": len(universe), "covered_by_hand_probes": len(set().union(*[set(f) for f in fp[:len(hand)]])),
+                   "covered_with_auto": len(covered), "candidates": len(cands)}
 
 
 CFGS = [("-greedy",), ("-storage", "-greedy"), ("-size", "-greedy"), ("-partition", "-greedy"),
@@ -130,7 +223,7 @@ def setup(cfg):
 
 def work(ctx, history):
     """Replay a history of probe indexes from the pristine state; returns per-step result digests and snapshots."""
-    ps = probes()
+    ps = PROBES or probes()
     s0 = snapshot()
     steps = []
     prev = s0
@@ -166,7 +259,7 @@ def de_bruijn(k, n):
 
 def work_walk(ctx, walk):
     """One long history (a de Bruijn walk): result digest and state hash after every step."""
-    ps = probes()
+    ps = PROBES or probes()
     out = []
     for idx in walk:
         r = process(ctx, ps[idx][1])
@@ -175,10 +268,42 @@ def work_walk(ctx, walk):
 
 
 def result_text(ctx, history):
-    ps = probes()
+    ps = PROBES or probes()
     out = None
     for idx in history:
         out = process(ctx, ps[idx][1])
+    return out
+
+
+# ---- cross-history agreement: result(B | H1) == result(B | H2) for many B and structurally different H
+
+def victims():
+    return candidate_pool()[::4]
+
+
+def cross_history(j, n_victims):
+    """History j: polluter j (none for j = 0) followed by all victims, rotated so that every victim sees different
+    predecessors in different histories."""
+    ps = PROBES or probes()
+    rot = (j * 37) % max(1, n_victims)
+    order = list(range(rot, n_victims)) + list(range(0, rot))
+    return (None if j == 0 else (j - 1) % len(ps)), order
+
+
+def work_cross(ctx, j):
+    vs = victims()
+    ps = PROBES or probes()
+    pol, order = cross_history(j, len(vs))
+    if pol is not None:
+        process(ctx, ps[pol][1])
+    out = {}
+    for i in order:
+        try:
+            out[i] = hashlib.sha1(process(ctx, vs[i]).encode()).hexdigest()
+        except (repo.UnitTimeout, MemoryError):
+            raise
+        except Exception as e:
+            out[i] = "raised:%s" % type(e).__name__
     return out
 
 
@@ -223,7 +348,10 @@ def main(tier, seed, only=None):
     chk = report.Check("C12", "model_checking", tier, seed)
     depth = 1 if tier == "quick" else 2
     order = 2 if tier == "quick" else 3
-    ps = probes()
+    extra, sel = select_probes(("-greedy",), max_extra=10 if tier == "quick" else 14)
+    del PROBES[:]
+    PROBES.extend(probes() + extra)
+    ps = PROBES
     chk.cov["rule"] = ("explicit-state search over processing histories: %d probe blocks (one per group of module "
                        "globals), transitions = process one probe (specification + optimize + compare), state = "
                        "canonical snapshot of every module-level variable of the tool; BFS with state hashing to depth "
@@ -312,6 +440,40 @@ def main(tier, seed, only=None):
         chk.sample({"config": list(cfg), "distinct_states": len(seen), "frontier_at_depth": len(frontier),
                     "example_history": [ps[i][0] for i in (frontier[0] if frontier else ())]})
 
+    # cross-history agreement over a large victim pool (finds readers of leaked state the probe menu has no block for)
+    nvict = len(victims())
+    ncross = 0
+    for cfg in cfgs[:2] if tier == "quick" else cfgs:
+        got = {}
+
+        def on_x(c, j, status, value):
+            chk.add("evaluations")
+            if status != "ok":
+                tot["budget"] += 1
+                chk.violation("harness-cross-%s" % status, {"config": list(c), "detail": str(value)[-300:]})
+                return
+            got[j] = value
+
+        nh = len(ps) + 1
+        pool.run_tasks([(cfg, [j]) for j in range(nh)], work_cross, setup=setup, unit_timeout=1800, on_result=on_x)
+        vs = victims()
+        for i in range(nvict):
+            seen_d = {}
+            for j, res in got.items():
+                seen_d.setdefault(res.get(i), []).append(j)
+            tot["transitions"] += len(got)
+            if len(seen_d) > 1:
+                groups = sorted(seen_d.values(), key=len)
+                ja, jb = groups[0][0], groups[-1][0]
+                chk.violation("history-dependent;cross;%s" % ("+".join(c for c in cfg if c != "-greedy") or "default"),
+                              {"kind": "cross", "config": list(cfg), "victim_index": i, "victim": B.to_text(vs[i]),
+                               "history_a": ja, "history_b": jb,
+                               "polluter_a": None if ja == 0 else B.to_text(ps[(ja - 1) % len(ps)][1]),
+                               "polluter_b": None if jb == 0 else B.to_text(ps[(jb - 1) % len(ps)][1])})
+        ncross += len(got)
+    chk.cov["cross_histories"] = ncross
+    chk.cov["cross_victims"] = nvict
+
     # position independence
     def on_p(cfg, trio, status, value):
         chk.add("evaluations")
@@ -332,6 +494,7 @@ def main(tier, seed, only=None):
                     "traces_validated_against_impl": tot["histories"], "histories": tot["histories"],
                     "module_variables_in_snapshot": tot["nvars"], "globals_observed_to_change": sorted(changed_vars)[:80],
                     "globals_observed_to_change_count": len(changed_vars), "position_contracts": tot["pos"], "walk_length": len(walk), "walk_word_order": order,
+                    "probe_selection": sel, "probes": [[n, B.to_text(b)] for n, b in ps],
                     "distinct_nontrivial": tot["states"], "skipped_budget": tot["budget"], "depth": depth,
                     "explanation": "every history is replayed on the real implementation in a freshly forked process"})
     return chk.finish(guards={"states": tot["states"] > len(cfgs), "changed_vars": len(changed_vars)})
@@ -340,6 +503,25 @@ def main(tier, seed, only=None):
 def replay(path):
     w = json.load(open(path))
     cfg = tuple(w["config"])
+    if w.get("kind") == "cross":
+        extra, _ = select_probes(("-greedy",), max_extra=10)
+        del PROBES[:]
+        PROBES.extend(probes() + extra)
+        got = {}
+
+        def on_x(c, j, status, value):
+            got[j] = value if status == "ok" else {}
+
+        pool.run_tasks([(cfg, [w["history_a"]]), (cfg, [w["history_b"]])], work_cross, setup=setup, unit_timeout=1800,
+                       on_result=on_x)
+        i = w["victim_index"]
+        a, b = got.get(w["history_a"], {}).get(i), got.get(w["history_b"], {}).get(i)
+        print("replay:", a, b)
+        if a != b:
+            print("VIOLATION property=C12 replay=%s" % path)
+            return 1
+        print("no violation on replay")
+        return 0
     hist = w["history_idx"]
     out = {}
 
